@@ -266,13 +266,32 @@ class VerticaQueryBuilder(QueryBuilder):
     def hint(self, label: str) -> "VerticaQueryBuilder":
         self._hint = label
 
-    def get_sql(self, *args: Any, **kwargs: Any) -> str:
-        sql = super().get_sql(*args, **kwargs)
+    def _hinted(self, sql: str) -> str:
+        # the hint follows the statement's own keyword, wherever the finished text puts it (below a WITH clause, inside the
+        # parentheses of a sub-query or set-operation operand)
+        if self._hint is None:
+            return sql
+        keyword, space, rest = sql.partition(" ")
+        return "{keyword} /*+label({hint})*/{space}{rest}".format(keyword=keyword, hint=self._hint, space=space, rest=rest)
 
-        if self._hint is not None:
-            sql = "".join([sql[:7], "/*+label({hint})*/".format(hint=self._hint), sql[6:]])
+    def _select_sql(self, **kwargs: Any) -> str:
+        sql = super()._select_sql(**kwargs)
+        # INSERT ... SELECT: the statement's keyword is INSERT
+        if self._insert_table is not None and not self._select_into:
+            return sql
+        return self._hinted(sql)
 
-        return sql
+    def _insert_sql(self, **kwargs: Any) -> str:
+        return self._hinted(super()._insert_sql(**kwargs))
+
+    def _replace_sql(self, **kwargs: Any) -> str:
+        return self._hinted(super()._replace_sql(**kwargs))
+
+    def _update_sql(self, **kwargs: Any) -> str:
+        return self._hinted(super()._update_sql(**kwargs))
+
+    def _delete_sql(self, **kwargs: Any) -> str:
+        return self._hinted(super()._delete_sql(**kwargs))
 
 
 class VerticaCreateQueryBuilder(CreateQueryBuilder):
